@@ -8,7 +8,8 @@ Line-protocol driver for C18 (op grammar and AST encoding: harness/hx-c18/src/sh
   tmpl <k> <variant> <ast>     -- the model prints `macroHtml ast` (k and variant only name the compiled shape)
   agree <site|-> <hex>         -- the renders of variants 0, 1, 2 of this case agree after normalisation
 
-Output of `tmpl`: `<hex of macroHtml> ## ok | fail <class>`; the verdict is
+Output of `tmpl`: `<hex of macroHtml> <in-order stream> <out-of-order stream> ## ok | fail <class>` (a stream is
+`=` when byte-identical to `macroHtml`, else its hex); the verdict is, for each of the three,
 `normalize (parse (macroHtml t)) == some (denote t)` (SVG tags parsed as custom elements `x-<tag>`);
 the class of a failing input is `findingClass` (Model/Macro Part 5).
 -/
@@ -145,7 +146,49 @@ partial def renTmpl : Tmpl → Tmpl
 /-- a leading `<!DOCTYPE html>` is outside the parser subset and not part of the tree -/
 def stripDoctype (h : Str) : Str := if sDoctype.isPrefixOf h then h.drop sDoctype.length else h
 
-def parseNorm (html : Str) : Option (List Tree) := normalize (parse (renameSvg (stripDoctype html)))
+/-- one flag per `<noscript>` of the template, in document order: does it have element children?  Such a
+noscript is read as a user agent WITHOUT scripting reads it (its content is markup), a noscript with only
+strings as `parse` (scripting enabled) reads it: raw text. -/
+partial def hasElem : List Tmpl → Bool
+  | [] => false
+  | .elem _ _ _ :: _ => true
+  | .comp _ :: _ => true
+  | .frag k :: r => hasElem k || hasElem r
+  | _ :: r => hasElem r
+
+partial def noscriptFlags : List Tmpl → List Bool
+  | [] => []
+  | .elem tag _ kids :: r => (if tag = tNoscript then [hasElem kids] else []) ++ noscriptFlags kids ++ noscriptFlags r
+  | .frag k :: r => noscriptFlags k ++ noscriptFlags r
+  | .comp k :: r => noscriptFlags k ++ noscriptFlags r
+  | _ :: r => noscriptFlags r
+
+/-- re-parse the raw text of the flagged `<noscript>` elements as markup (document order) -/
+partial def reparse : List Tree → List Bool → Option (List Tree × List Bool)
+  | [], fl => some ([], fl)
+  | .elem tag as ks :: r, fl => do
+    let (ks1, fl1) ←
+      if tag = tNoscript then
+        match fl with
+        | true :: fl' =>
+          (match ks with
+           | [] => some ([], fl')
+           | [.text t] => (parse t).map (fun x => (x, fl'))
+           | _ => none)
+        | _ :: fl' => some (ks, fl')
+        | [] => some (ks, [])
+      else some (ks, fl)
+    let (ks2, fl2) ← reparse ks1 fl1
+    let (r', fl3) ← reparse r fl2
+    some (.elem tag as ks2 :: r', fl3)
+  | t :: r, fl => do
+    let (r', fl') ← reparse r fl
+    some (t :: r', fl')
+
+def parseNorm (flags : List Bool) (html : Str) : Option (List Tree) :=
+  match parse (renameSvg (stripDoctype html)) with
+  | some t => (reparse t flags).map (fun x => normList x.1)
+  | none => none
 
 def className : Option Nat → String
   | some 0 => "noscript-inert"
@@ -192,13 +235,17 @@ def step (st : St) (line : String) : St × String :=
     | some _, some v, some ts =>
       if v > 2 then (st, "bad-op") else
       let html := macroHtml ts
-      let got := parseNorm html
+      let inOrder := macroHtmlStream false ts
+      let outOfOrder := macroHtmlStream true ts
+      let flags := noscriptFlags ts
+      let got := parseNorm flags html
       let want := denote (ts.map renTmpl)
-      let ok := got == some want
+      let ok := got == some want && parseNorm flags inOrder == some want && parseNorm flags outOfOrder == some want
+      let showS := fun (o : Str) => if o == html then "=" else hexOfStr o
       let cls := className (findingClass ts)
       let st' : St := { seen := (v, got) :: st.seen.filter (fun p => p.1 != v),
                         failed := (if ok then st.failed else match st.failed with | some c => some c | none => some cls) }
-      (st', s!"{hexOfStr html} ## {if ok then "ok" else "fail " ++ cls}")
+      (st', s!"{hexOfStr html} {showS inOrder} {showS outOfOrder} ## {if ok then "ok" else "fail " ++ cls}")
     | _, _, _ => (st, "bad-op")
   | ["agree", site, extra] =>
     let site? : Option (Option Nat) := if site == "-" then some none else site.toNat?.map some
